@@ -194,10 +194,12 @@ impl<'a, I: Iterator<Item = Item>, F: StreamFilter + 'a> Iterator for Compaction
                         continue;
                     }
 
-                    // NOTE: If next item is an actual value, and current value is weak tombstone,
-                    // drop the tombstone
-                    let drop_weak_tombstone = peeked.key.value_type == ValueType::Value
-                        && head.key.value_type == ValueType::WeakTombstone;
+                    // NOTE: If next item is an actual value (inline, or a pointer into a blob file),
+                    // and current value is weak tombstone, drop the tombstone
+                    let drop_weak_tombstone = matches!(
+                        peeked.key.value_type,
+                        ValueType::Value | ValueType::Indirection
+                    ) && head.key.value_type == ValueType::WeakTombstone;
 
                     if drop_weak_tombstone {
                         // NOTE: The weak tombstone and the value directly beneath it cancel each other out,
